@@ -629,6 +629,7 @@ class Ctx:
         self.stats = {"eqns": 0, "sym_eqns": 0, "havoc": []}
         self.last_closed = None
         self.replay_model = None   # replay mode: stub draws are replaced by the model's values, everything else runs on real primitives
+        self.ranges = {}           # term id -> (lo, hi) of every ranged fresh variable (domain-closure obligations of the induction)
 
     def fresh(self, name, dt):
         dt = np.dtype(dt)
@@ -653,6 +654,7 @@ class Ctx:
                 self.assumptions.append(to_z3(_s_cmp_raw("ge", of[i], lo, dt), np.bool_))
                 self.assumptions.append(to_z3(_s_cmp_raw("le", of[i], hi, dt), np.bool_))
                 vs_set(of[i], list(range(lo, hi + 1)))
+                self.ranges[_tid(of[i])] = (lo, hi)
         return SV(out, dt)
 
 
